@@ -36,6 +36,18 @@ N_OPT = "options['max_population_size']"
 EXPECT_FIRST = {"NSGAII": 1, "EpsMOEA": 0, "OMOPSO": 0, "SMPSO": 0}
 
 
+def TT_(fn):
+    return Terms(fn)
+
+
+def _stmt_of(fn, node):
+    """the simple statement of fn that contains node"""
+    for s_ in stmts_of(fn):
+        if not isinstance(s_, (ast.For, ast.While, ast.If, ast.Try, ast.With)) and any(x is node for x in ast.walk(s_)):
+            return s_
+    return fn.body[0]
+
+
 def body_fn(stmts, args, lineno=0):
     return ast.FunctionDef(name="body", args=args, body=stmts, decorator_list=[], returns=None, type_comment=None, lineno=lineno, col_offset=0)
 
@@ -332,10 +344,17 @@ def r345_run(ctx, repo, cname, mname, gl):
     pos = fn.body.index(loop)
     # initial generator size
     init_n = [c for s in fn.body[:pos] for c in calls_in(s) if (access_path(c.func) or "") == selfn + ".generator.init"]
-    if init_n and init_n[0].args and text(init_n[0].args[0]).endswith(N_OPT):
+    n_arg = None
+    if init_n:
+        n_arg = init_n[0].args[0] if init_n[0].args else (init_n[0].keywords[0].value if len(init_n[0].keywords) == 1 else None)
+    if n_arg is not None and text(TT_(fn).expand(n_arg, at=_stmt_of(fn, init_n[0]))).endswith(N_OPT):
         ctx.holds("R2", C, where(mod, init_n[0]), "initial generator initialised with N", key="initial-N")
-    else:
+    elif n_arg is not None and (is_const(n_arg) or ".options[" in text(n_arg)):
+        ctx.violated("R2", C, where(mod, init_n[0]), "the initial generator is initialised with %s, not with the population size option" % text(n_arg), key="initial-N")
+    elif not init_n and not any("generator" in (access_path(c.func) or "") for s in fn.body[:pos] for c in calls_in(s)):
         ctx.violated("R2", C, where(mod, fn), "the initial generator is not initialised with the population size option", key="initial-N")
+    else:
+        ctx.inconclusive("R2", C, where(mod, fn), "initialisation of the initial generator not recognised", key="initial-N")
     # evaluate before the loop: exactly one on every path of the prefix
     pre = body_fn(fn.body[:pos], fn.args)
     bad = None
@@ -408,7 +427,9 @@ def r345_run(ctx, repo, cname, mname, gl):
         ctx.inconclusive("R5", C, where(mod, loop), "generate / sort / truncate not found in the generation loop", key="pool")
         return
     off = access_path(gens[0].targets[0])
-    parents = access_path(gens[0].value.args[0]) if gens[0].value.args else None
+    from ..astutil import call_arg
+    pa_ = call_arg(gens[0].value, 0, "parents")
+    parents = access_path(pa_) if pa_ is not None else None
     pool_arg = access_path(tr[0].value.args[0])
     size_arg = tr[0].value.args[1] if len(tr[0].value.args) > 1 else None
     if pool_arg != off or access_path(srt[0].value.args[0]) != off:
@@ -546,14 +567,16 @@ def r6_acceptance(ctx, repo):
                 elif t == domflag:
                     dominated = e.val
         removed, appended = [], 0
-        for e in p.events:
+        pe_ = PathEnv(fn, p.events)
+        for k_, e in enumerate(p.events):
             if e.kind != "stmt":
                 continue
             s = e.node
             if isinstance(s, ast.Delete):
                 for t in s.targets:
                     if isinstance(t, ast.Subscript) and access_path(t.value) == pop:
-                        removed.append(("del", text(t.slice)))
+                        # the index with the locals of this path looked through (idx = random.choice(..); del pop[idx])
+                        removed.append(("del", text(pe_.expand_at(t.slice, k_))))
             for c in calls_in(s):
                 mc = method_call(c)
                 if mc and access_path(mc[0]) == pop:
